@@ -129,6 +129,14 @@ def unit_level(ctx):
                         exp = 'err:' + type(e).__name__
                     lines.append('addperiod\t%s\t%s\t%s' % (cps(mod), '?' if a is None else cps(a), '?' if b is None else cps(b)))
                     expect.append(exp)
+                    if not exp.startswith('err:'):
+                        # RTV.WF.periodValue (the value a period slot contributes; theorems of Props/C11, Lemmas/Periods): the
+                        # same real call, read as the model's Value (a key written with None = no start / end)
+                        f2 = lambda k: cps(out[k]) if out.get(k) is not None else 'absent'
+                        lines.append('periodvalue\t%s\t%s\t%s\t%s\t%s' % (cps(t), cps('(X,Y,PZ)'), cps(mod), '?' if a is None else cps(a),
+                                                                          '?' if b is None else cps(b)))
+                        expect.append('none' if ('start' not in out and 'end' not in out) else
+                                      '~'.join([cps(t), cps('(X,Y,PZ)'), f2('start'), f2('end')]))
     n_before = len(lines)
     _assemble_cases(ctx, parser, r, lines, expect)
     ctx.count('unit: set_parse_result (every slot kind x modifier x flags) vs RTV.WF.resolveSlot', len(lines) - n_before)
@@ -224,6 +232,26 @@ def _assemble_cases(ctx, parser, r, lines, expect):
                     call(t, 'PT1H', mod, flagsets[k % 4], (None, None, None, p), (None, None, None, f))
 
 
+def _holiday_entity_values(merged, res):
+    """the `values` the merged parser gives a holiday entity: BaseHolidayParser.parse's wrapping of the `_match2date` result
+    (format_date of both values, slot type `date`) followed by the real `_date_time_resolution`; in the form of `hol.values`"""
+    from recognizers_date_time.date_time.utilities import DateTimeFormatUtil, DateTimeResolutionResult
+    from recognizers_date_time.date_time.parsers import DateTimeParseResult
+    try:
+        v = DateTimeResolutionResult()
+        v.success, v.timex = True, res.timex
+        v.future_value, v.past_value = res.future_value, res.past_value
+        v.future_resolution = {'date': DateTimeFormatUtil.format_date(res.future_value)}
+        v.past_resolution = {'date': DateTimeFormatUtil.format_date(res.past_value)}
+        slot = DateTimeParseResult()
+        slot.type, slot.timex_str, slot.value = 'date', res.timex, v
+        out = merged._date_time_resolution(slot, False, False, False)
+        return ';'.join('~'.join([cps(x.get('type', '')), cps(x.get('timex', '') or ''),
+                                  cps(x['value']) if x.get('value') is not None else 'absent']) for x in out['values'])
+    except Exception as e:
+        return 'err:' + type(e).__name__
+
+
 class _FakeMatch:
     """what `_match2date` reads from the regex match: the three named groups"""
     def __init__(self, holiday, year, order):
@@ -262,11 +290,13 @@ def holiday_level(ctx):
     if ctx.thorough:
         fyears = list(range(1, 10000))
     cfgs = {}
+    merged_of = {}
     unknown = 0
     for cul, _pkg in hgen.CULTURES:
         m = recog.get_model('DateTime', 'DateTimeModel', cul)
         cfg = m.parser.config.holiday_parser.config
         cfgs[cul] = (m.parser.config.holiday_parser, cfg)
+        merged_of[cul] = m.parser
         for key, func in cfg.holiday_func_dictionary.items():
             ys = fyears if not ctx.thorough else fyears[::1]
             for y in ys:
@@ -325,6 +355,15 @@ def holiday_level(ctx):
                             if vals:
                                 wf_ents.append({'type_name': 'datetimeV2.date', 'values': vals})
                                 wf_meta.append((cul, spelling, ys, od, str(ref)))
+                        if res.success:
+                            # RTV.Holiday.holidayValues (what the merged parser emits for the holiday entity; theorems of
+                            # Props/C11Holiday) against the real parse wrapping + _date_time_resolution on this very result
+                            hv = _holiday_entity_values(merged_of[cul], res)
+                            if hv is not None:
+                                lines.append('hol.values\t%s\t%d\t%d\t%d\t%d\t%d\t%d' % (
+                                    cps(res.timex), fv.year, fv.month, fv.day, pv.year, pv.month, pv.day))
+                                expect.append(hv)
+                                meta.append(('values', (cul, spelling, ys, od, str(ref))))
                     except Exception:
                         e = 'raises'
                     sw = '?' if not od else str(cfg.get_swift_year(od))
